@@ -347,8 +347,9 @@ def undo_newline_rule(ctx, res, rule: str) -> None:
         captured = {t.attr for x in walk_local(do_node) if isinstance(x, ast.Assign) and isinstance(x.value, ast.Attribute)
                     and x.value.attr == "newlines" for t in x.targets if is_self_attr(t)}
         cfg = CFG(undo_node)
+        val = lambda e: common._subst_single_locals(undo_node, e)  # `old = self._old_newlines ... resource.newlines = old`
         restores = [nd for nd in cfg.nodes if nd.kind == "stmt" and isinstance(nd.ast, ast.Assign) and any(
-            isinstance(t, ast.Attribute) and t.attr == "newlines" for t in nd.ast.targets) and is_self_attr(nd.ast.value) and nd.ast.value.attr in captured]
+            isinstance(t, ast.Attribute) and t.attr == "newlines" for t in nd.ast.targets) and is_self_attr(val(nd.ast.value)) and val(nd.ast.value).attr in captured]
         ok = bool(captured) and bool(restores)
         if ok:
             # the restore lies before the write on the path where a convention was captured
